@@ -22,6 +22,7 @@
 // Expected injected headers are matched token by token; for an encoded blank both "+" and "%20" are
 // accepted, hex digits in either case (the statement pins neither).
 // The carrier hands out exactly-sized heap copies without NUL terminator.
+#include <algorithm>
 #include <cstdint>
 #include <cstring>
 #include <fstream>
@@ -156,9 +157,12 @@ struct Conc
         unsigned char x = (unsigned char)ch(c);
         for (size_t i = 0; i < n; ++i)
         {
+          const char *t1 = r.coin(50) ? HU : HL;
+          const char *t2 = r.coin(50) ? HU : HL;
+          unsigned hi = x / 16u, lo = x % 16u;
           h.push_back('%');
-          h.push_back((r.coin(50) ? HU : HL)[x >> 4]);
-          h.push_back((r.coin(50) ? HU : HL)[x & 15]);
+          h.push_back(t1[hi]);
+          h.push_back(t2[lo]);
         }
       }
       else if (kind == "bad")
@@ -334,7 +338,7 @@ static bool match_header(const Conc &cz, const std::string &h, const std::vector
             ++pos;
             continue;
           }
-          if (pos + 2 >= h.size() + 0 && pos + 3 > h.size())
+          if (pos + 3 > h.size())
             return false;
           if (h[pos] != '%' || hexv(h[pos + 1]) < 0 || hexv(h[pos + 2]) < 0 ||
               (unsigned char)(hexv(h[pos + 1]) * 16 + hexv(h[pos + 2])) != (unsigned char)c)
@@ -363,6 +367,7 @@ static void inject(const BgPtr &b, Carrier &car)
 struct ExtractOut
 {
   List got;
+  BgPtr bag;
   bool other_ok;
 };
 static ExtractOut extract(const std::string &hdr, bool present, const BgPtr *b0)
@@ -376,7 +381,8 @@ static ExtractOut extract(const std::string &hdr, bool present, const BgPtr *b0)
   opentelemetry::baggage::propagation::BaggagePropagator prop;
   context::Context res = prop.Extract(car, c2);
   ExtractOut o;
-  o.got      = entries(opentelemetry::baggage::GetBaggage(res));
+  o.bag      = opentelemetry::baggage::GetBaggage(res);
+  o.got      = entries(o.bag);
   auto other = res.GetValue(kOther);
   o.other_ok = nostd::holds_alternative<int64_t>(other) && nostd::get<int64_t>(other) == 4711;
   // the caller's context is a value: it still shows what it had
@@ -501,12 +507,8 @@ static int replay(const char *path)
             fail("Extract disturbed the caller's context", x.got, {});
           else
           {
-            objs.push_back(build(x.got));  // a fresh object with the extracted entries
-            if (entries(objs.back()) != x.got)
-            {
-              // Set order is unpinned: keep what the rebuilt object shows
-            }
-            seen.push_back(entries(objs.back()));
+            objs.push_back(x.bag);  // the extracted baggage is a new object
+            seen.push_back(x.got);
             took.push_back("exp");
           }
         }
@@ -567,7 +569,8 @@ static int replay(const char *path)
       }
       ++si;
     }
-    res["took"] = took;
+    res["took"]  = took;
+    res["chars"] = std::string(1, cz.ch("a")) + cz.ch("b") + cz.ch("op");
     std::cout << res.dump() << "\n" << std::flush;
   }
   return 0;
@@ -664,15 +667,8 @@ static int record(uint64_t seed, int nexec, int len)
         inject(objs[o], car);
         bool has       = car.h.count("baggage") > 0;
         ExtractOut out = extract(has ? car.h["baggage"] : "", has, nullptr);
-        // the extracted baggage becomes a new object, rebuilt entry by entry
-        BgPtr nw = build(out.got);
-        objs.push_back(nw);
+        objs.push_back(out.bag);  // the extracted baggage is a new object
         std::cout << json({{"e", "Rt"}, {"o", o + 1}, {"res", cz.abs_list(out.got)}, {"other", out.other_ok}}).dump() << "\n";
-        // the rebuilt object may list the entries in another order: log what it shows as its own state
-        if (entries(nw) != out.got)
-        {
-          std::cout << json({{"e", "Reorder"}, {"o", objs.size()}, {"list", cz.abs_list(entries(nw))}}).dump() << "\n";
-        }
       }
       obs(o);
       if (objs.size() > 2 && r.coin(50))
@@ -687,7 +683,8 @@ static int record(uint64_t seed, int nexec, int len)
 static int bytes(uint64_t seed, int n)
 {
   Rng r(seed);
-  static const std::string interesting("=,;%+ \t\0\x01\x7f\x80\xff" "0123456789abcdefABCDEFgG-_.~kv", 45);
+  static const char raw[] = "=,;%+ \t\0\x01\x7f\x80\xff" "0123456789abcdefABCDEFgG-_.~kv";
+  static const std::string interesting(raw, sizeof(raw) - 1);
   long kept = 0;
   for (int i = 0; i < n; ++i)
   {
